@@ -109,6 +109,7 @@ def run(ctx):
         viol(report, "C11-R1", "tables", "not a table", "a conversion is no longer a loop-free decision table: %s" % e)
     # ---- R4: writers construct no error of their own (LOC's version check mirrors the parser's)
     n_w = 0
+    writers = []
     for b in sorted(prog.bodies.values(), key=lambda x: x.qname):
         if b.crate != "simple_dns" or b.kind in ("Closure", "Promoted"):
             continue
@@ -117,7 +118,21 @@ def run(ctx):
             or b.qname in ("simple_dns::Header::write_to", "simple_dns::Packet::write_to", "simple_dns::Packet::write_compressed_to")
         if not is_writer:
             continue
-        n_w += 1
+        writers.append(b)
+    # the writers and every crate function they reach (helpers such as a length check called from a writer)
+    reach = ctx.cg.reachable([b.id for b in writers])
+    scan = []
+    for bid in sorted(reach):
+        b = prog.bodies[bid]
+        if b.crate != "simple_dns" or b.kind == "Promoted":
+            continue
+        if b.impl and (b.impl.get("trait_full") or "").startswith("std::convert::From<std::io::Error>") and "SimpleDnsError" in (b.impl.get("self_s") or ""):
+            continue        # conversion of an I/O error reported by the caller's writer
+        scan.append(b)
+    report.extra["writer_functions"] = len(writers)
+    report.extra["functions_reached_from_writers"] = len(scan)
+    for b in scan:
+        n_w += 1 if b in writers else 0
         report.count()
         errs = [(bi, si, s) for bi, si, s in mu.aggregates(b, "simple_dns_error::SimpleDnsError")]
         for bi, si, s in errs:
@@ -129,7 +144,8 @@ def run(ctx):
                 if ok:
                     continue
             viol(report, "C11-R4", b.qname, "constructs-error",
-                 "%s constructs SimpleDnsError::%s itself: serialising a parsed value can fail" % (b.qname, s["rv"]["vn"]),
+                 "%s (reached from %s) constructs SimpleDnsError::%s itself: serialising a parsed value can fail" % (
+                     b.qname, "a writer" if b not in writers else "the writers", s["rv"]["vn"]),
                  where_of(b, s["sp"]))
     report.floor("writer functions scanned", n_w, 75)
     report.assumptions += ["field-value equality across parse(write(parse(x))) is not decided (value-level)",
